@@ -293,13 +293,17 @@ class FastSerialCommunicator(LogMixin):
         retries = 0
 
         while max_retries == -1 or retries <= max_retries:
+            await self.send_and_wait_for_response(msg, pause_sending_until, log_msg)
             try:
-                await asyncio.wait_for(self.send_and_wait_for_response(msg, pause_sending_until,
-                                                                       log_msg), timeout=timeout)
+                # the message is on its way. wait for the response
+                await asyncio.wait_for(self.no_response_waiting.wait(), timeout=timeout)
                 break
             except asyncio.TimeoutError:
-                self.log.error("Timeout waiting for response to %s. Retrying...", msg)
                 retries += 1
+                if max_retries == -1 or retries <= max_retries:
+                    self.log.error("Timeout waiting for response to %s. Retrying...", msg)
+                    # the response is lost. do not wait for it before sending again
+                    self.no_response_waiting.set()
 
         await self.done_waiting.wait()
 
